@@ -2545,6 +2545,30 @@ class Env(cabc.MutableMapping):
             self._d["PATH"] = EnvPath(PATH_DEFAULT)
         self._detyped = None
 
+    @property
+    def _detyped(self):
+        return self._detyped_cache
+
+    @_detyped.setter
+    def _detyped(self, value):
+        # every ``self._detyped = None`` invalidation also bumps the
+        # generation, so a concurrent detype() can tell its result is stale
+        with self._detyped_lock:
+            if value is None:
+                self._detyped_generation += 1
+            self._detyped_cache = value
+
+    def _store_detyped(self, generation, ctx):
+        """Cache ``ctx`` unless the cache was invalidated (by any thread)
+        since ``generation`` was read - the mapping may already be stale."""
+        with self._detyped_lock:
+            if generation == self._detyped_generation:
+                self._detyped_cache = ctx
+
+    _detyped_cache = None
+    _detyped_generation = 0
+    _detyped_lock = threading.Lock()
+
     def get_detyped(self, key: str):
         detyped = self.detype()
         return detyped.get(key)
@@ -2555,8 +2579,16 @@ class Env(cabc.MutableMapping):
         Note! If env variable wasn't explicitly set (e.g. the value has default value in ``Xettings``)
         it will be not in this list.
         """
-        if self._detyped is not None and not self._overlay_stack:
-            return self._detyped
+        # The cache holds the detyped *global* view. A thread that currently
+        # has overlays or thread-local (swap) overrides sees a private view:
+        # it must neither be served from the cache nor fill it, or its
+        # swapped values would leak to child processes launched by other
+        # threads (and vice versa).
+        private_view = bool(self._overlay_stack) or bool(self._d._local)
+        cached = self._detyped
+        if cached is not None and not private_view:
+            return cached
+        generation = self._detyped_generation
         ctx = {}
         items = dict(self._d)
         # Apply overlay values on top (most recent overlay wins)
@@ -2581,8 +2613,8 @@ class Env(cabc.MutableMapping):
                 # cannot be detyped
                 continue
             ctx[key] = deval
-        if not self._overlay_stack:
-            self._detyped = ctx
+        if not private_view:
+            self._store_detyped(generation, ctx)
         return ctx
 
     def detype_all(self):
